@@ -6174,6 +6174,21 @@ impl BytecodeVM {
                     return Ok(());
                 }
 
+                // The length of an array only accepts an integer in 0..=2^32 - 1
+                // (ArraySetLength: ToUint32(value) has to be the same number as ToNumber(value))
+                if matches!(&prop_key, PropertyKey::String(k) if k.as_str() == "length")
+                    && obj_ref.borrow().is_array()
+                {
+                    let number_len = interp.coerce_to_number(&value)?;
+                    if JsValue::Number(number_len).to_uint32() as f64 != number_len {
+                        return Err(JsError::range_error("Invalid array length"));
+                    }
+                    obj_ref
+                        .borrow_mut()
+                        .set_property(prop_key, JsValue::Number(number_len));
+                    return Ok(());
+                }
+
                 // Regular data property
                 obj_ref.borrow_mut().set_property(prop_key, value);
                 Ok(())
